@@ -25,7 +25,7 @@ mod verif_state {
         kani::cover!(!ghost::i_won(), "lost the election");
     }
 
-    //@H name=c18_set_twice props=C18,C20 fn=SingletonHolder::set :: first set wins: a later set never replaces or disturbs the stored value
+    //@H name=c18_set_twice props=C17,C18,C20 fn=SingletonHolder::set :: first set wins: a later set never replaces or disturbs the stored value
     #[kani::proof]
     fn c18_set_twice() {
         let h: SingletonHolder<u8> = SingletonHolder::new();
@@ -35,7 +35,7 @@ mod verif_state {
         let p1 = h.get().map(|a| Arc::as_ptr(&a));
         h.set(9);
         let g = h.get();
-        assert!(matches!(g, Some(ref a) if **a == 7), "[C18] later sets are ignored");
+        assert!(matches!(g, Some(ref a) if **a == 7), "[C17,C18] later sets are ignored: the global default client the macros send on is the FIRST one set, for good");
         assert!(g.map(|a| Arc::as_ptr(&a)) == p1, "[C18] every get returns the same instance");
         kani::cover!(true, "end");
     }
